@@ -22,6 +22,8 @@ SHARD_TIMEOUT = {"quick": 900, "thorough": 5400}
 
 KEYS = ["a", "a/b", "a/b-c", "a-b/c", "A", "a~Ib", "a~_b", "x-~X~y~E", "x-~X~/y/z~E", "-R/a/b/-/dr", "a/b/-/dr",
         "a%41", "aA", "/a", "/a/b", "k" * 120 + "/" + "m" * 120, "a/b.txt", "café-€", "a b",
+        # two keys that differ only in Unicode normalisation form (they are different query texts)
+        "caf\u00e9-x", "cafe\u0301-x",
         # a query text longer than any column width a back-end may have in mind (about 2600 characters)
         "/".join("w%02d-%s" % (i, "x" * 180) for i in range(14))]
 
